@@ -172,9 +172,12 @@ func NewDeviceCode(nBytes int) (string, error) {
 }
 
 func NewUserCode(charSet []rune, charAmount, dashInterval int) (string, error) {
+	if len(charSet) == 0 || charAmount <= 0 {
+		return "", errors.New("user code configuration needs a non-empty character set and a positive amount of characters")
+	}
 	var buf strings.Builder
 	if dashInterval > 0 {
-		buf.Grow(charAmount + charAmount/dashInterval - 1)
+		buf.Grow(charAmount + charAmount/dashInterval)
 	} else {
 		buf.Grow(charAmount)
 	}
@@ -182,7 +185,7 @@ func NewUserCode(charSet []rune, charAmount, dashInterval int) (string, error) {
 	max := big.NewInt(int64(len(charSet)))
 
 	for i := 0; i < charAmount; i++ {
-		if dashInterval != 0 && i != 0 && i%dashInterval == 0 {
+		if dashInterval > 0 && i != 0 && i%dashInterval == 0 {
 			buf.WriteByte('-')
 		}
 
